@@ -492,6 +492,54 @@ def rule_sibling_scripts(ctx, rep: Report, rid="Y4"):
 
 
 
+def _source_list_by_evaluation(ctx, mi, opts, scope, av, call) -> Optional[List[str]]:
+    """The first argument of the wrap() call evaluated (own interpreter, backward slice of main()) for sample --src values: the
+    list must name the listed files, all of them, in order.  An entry may be the same file named absolutely - the interpreter's
+    abspath / normpath - provided the value is only ever used to name a file (pathflow); None when it cannot be evaluated."""
+    from .rules_matlab import SAMPLE_CWD, SampleObj, _PathEval, _Raised, slice_eval
+    from .pathflow import uses_only_name_files
+    from .rules_flow import effects_engine
+    import posixpath
+    if isinstance(scope, ast.Module):
+        # a script written at module level: its statements seen as the body of one function
+        fn_ = ast.FunctionDef(name="__main__", args=ast.arguments(posonlyargs=[], args=[], vararg=None, kwonlyargs=[], kw_defaults=[], kwarg=None,
+                                                                  defaults=[]), body=scope.body, decorator_list=[], returns=None, lineno=1, col_offset=0)
+        scope_fn = fn_
+    elif isinstance(scope, (ast.FunctionDef, ast.AsyncFunctionDef)):
+        scope_fn = scope
+    else:
+        return None
+    diffs: List[str] = []
+    for src in ("m.i;sub/b.i;c.d.i", "only.i", "a.i;x/../b.i;a.i;z.i"):
+        args = SampleObj({o["dest"]: ("" if "store_true" not in unparse(o["kw"].get("action", ast.Constant(""))) else False) for o in opts.values()})
+        args["src"] = src
+        for k_ in ("is_submodule",):
+            args[k_] = False
+        try:
+            got = slice_eval(scope_fn, call.args[0], {av: args, '__name__': '__main__'}, frozen={av}, budget=4000)
+        except (_PathEval.Unknown, _Raised, RecursionError):
+            return None
+        want = src.split(";")
+        if not isinstance(got, list) or not all(isinstance(g, str) or hasattr(g, "as_posix") for g in got):
+            return None
+        got = [str(g) for g in got]
+        if got == want:
+            continue
+        same_files = len(got) == len(want) and all(g == w or g == posixpath.normpath(posixpath.join(SAMPLE_CWD, w)) or g == posixpath.normpath(w)
+                                                   for g, w in zip(got, want))
+        if not same_files:
+            diffs.append(f"--src {src!r} reaches wrap() as {got}")
+            continue
+        # renamed consistently: harmless only where the value does nothing but name files (its last component is the same)
+        if any(posixpath.basename(g) != posixpath.basename(w) for g, w in zip(got, want)):
+            diffs.append(f"--src {src!r} reaches wrap() as {got}: the initialiser names are derived from these spellings")
+            continue
+        eff = effects_engine(ctx)
+        if not uses_only_name_files(eff, call.args[0], scope_fn, mi, None):
+            diffs.append(f"--src {src!r} reaches wrap() as {got}, and the library does more with an entry than open it and take its last component")
+    return diffs
+
+
 def rule_source_list_unfiltered(ctx, rep: Report, rid="Y3"):
     """The list of interface files handed to the library is exactly the --src option split at ';':
     every file the caller named is wrapped / declared, in the order given."""
@@ -519,6 +567,10 @@ def rule_source_list_unfiltered(ctx, rep: Report, rid="Y3"):
                 ok = ok and not muts and not dels
             else:
                 ok = unparse(a).replace(" ", "").replace('"', "'") == f"{av}.src.split(';')"
+            evd = _source_list_by_evaluation(ctx, mi, opts, scope, av, c)
+            if evd is not None:
+                ok, detail = not evd, "; ".join(evd[:2])
+            rep.units.setdefault("source_list_by_evaluation", {})[which] = evd is not None
             rep.add(rid, f"{which}:the source list passed to wrap() is --src split at ';', unfiltered and in order", ok,
                     f"{detail}: a file the caller listed can be dropped or re-ordered before the library sees it, so the "
                     f"script no longer produces what the API produces for the same list", f"{rel}:{c.lineno}")
